@@ -282,6 +282,10 @@ func (p *Profile) Generate(r *vk.Rand) (*Config, []string, []Op) {
 			if len(p.Size) > 0 {
 				op.Size = vk.Pick(r, p.Size)
 			}
+			if st.ver[slot] == 5 && r.Chance(p.AliasPct) {
+				op.Alias = uint16(r.Range(1, 3))
+				op.NoTopic = r.Chance(45)
+			}
 			if op.QoS == 2 && r.Chance(p.DupQ2Pct) {
 				// withhold PUBREL; retransmissions and the release follow later
 				st.pidCtr++
